@@ -29,7 +29,7 @@ type Callback struct {
 }
 
 // PanicKinds are the panic values used by C06.
-var PanicKinds = []string{"nil", "error", "string", "runtime", "nilderef", "struct", "custom", "ctxcanceled", "ctxwrapped", "typednil"}
+var PanicKinds = []string{"nil", "error", "string", "runtime", "nilderef", "struct", "custom", "ctxcanceled", "ctxwrapped", "typednil", "slice", "map", "slicestruct"}
 
 // Work is one piece of managed work started on a module while it is online.
 type Work struct {
@@ -43,6 +43,9 @@ type Work struct {
 	// Panic, if set, makes the first run of the function panic with that
 	// kind of value (after HoldUS / after cancellation+DelayUS).
 	Panic string `json:"panic,omitempty"`
+	// PanicRuns > 1: the first PanicRuns runs panic (a service worker that fails the same way on every restart, a
+	// task that panics again when it is queued again).
+	PanicRuns int `json:"panic_runs,omitempty"`
 	// On names the module whose event the hook listens on (Kind "hook"
 	// only; empty = own module).
 	On string `json:"on,omitempty"`
@@ -53,6 +56,17 @@ type Work struct {
 	// NoWait: the launch step does not wait for the item to begin (a task that cannot get a time slot while the
 	// microtask limit is used up).
 	NoWait bool `json:"no_wait,omitempty"`
+}
+
+// PanickingRuns is the number of runs of the item that panic.
+func (w *Work) PanickingRuns() int {
+	if w.Panic == "" {
+		return 0
+	}
+	if w.PanicRuns > 1 {
+		return w.PanicRuns
+	}
+	return 1
 }
 
 // WorkKinds lists the supported kinds of managed work.
